@@ -145,7 +145,8 @@ def to_json(sc):
             'id_spelling': sc.get('id_spelling') or {},
             'nodes': [[k.hex(), str(w)] for k, w in sc['nodes']],
             'sigs': [[i.hex(), s.hex()] for i, s in sc['sigs']],
-            'wc': sc['wc'], 'shard': str(sc['shard']), 'seqno': sc['seqno'], 'root': sc['root'].hex(), 'file': sc['file'].hex()}
+            'wc': sc['wc'], 'shard': str(sc['shard']), 'seqno': sc['seqno'], 'root': sc['root'].hex(), 'file': sc['file'].hex(),
+            **({'first_block': [sc['first_block'][0].hex(), sc['first_block'][1].hex()]} if sc.get('first_block') else {})}
 
 
 def from_json(j):
@@ -153,7 +154,8 @@ def from_json(j):
             'id_spelling': j.get('id_spelling') or {},
             'nodes': [(bytes.fromhex(k), int(w)) for k, w in j['nodes']],
             'sigs': [(bytes.fromhex(i), bytes.fromhex(s)) for i, s in j['sigs']],
-            'wc': j['wc'], 'shard': int(j['shard']), 'seqno': j['seqno'], 'root': bytes.fromhex(j['root']), 'file': bytes.fromhex(j['file'])}
+            'wc': j['wc'], 'shard': int(j['shard']), 'seqno': j['seqno'], 'root': bytes.fromhex(j['root']), 'file': bytes.fromhex(j['file']),
+            **({'first_block': (bytes.fromhex(j['first_block'][0]), bytes.fromhex(j['first_block'][1]))} if j.get('first_block') else {})}
 
 
 def check_one(ctx, sc):
@@ -180,6 +182,19 @@ def check_one(ctx, sc):
                  to_json(sc), verb, 'accept' if expect else 'reject')
     if not sc.get('id_text'):        # the model's entries carry bytes; a non-hex id text has no counterpart there
         ctx.expect_model(model_line(sc, payload), 'ok 1' if got else 'ok 0', f'{sc["kind"]} {n}v{m}s')
+    if got and expect and not sc['kind'].startswith('other-block/') and m > 0:
+        # the very signatures just accepted for this block, presented for ANOTHER block id (one bit of root_hash or file_hash
+        # differs): each signature is over another payload now - nothing learnt while verifying the first block may carry over
+        ctx._c12_replays = getattr(ctx, '_c12_replays', 0) + 1
+        if ctx._c12_replays % 3 == 1 or n <= 4:
+            which = 'root' if ctx._c12_replays % 2 else 'file'
+            h2 = bytearray(sc[which])
+            h2[(n + m) % 32] ^= 1 << (m % 8)
+            sc2 = dict(sc, kind='other-block/' + sc['kind'], expect=False, why='signatures accepted for one block replayed for another (' + which + '_hash differs in one bit)')
+            sc2[which] = bytes(h2)
+            sc2['first_block'] = (sc['root'], sc['file'])      # for the replay: the block these signatures were first verified for
+            check_one(ctx, sc2)
+            check_one(ctx, dict(sc, kind='other-block/again-' + sc['kind']))      # and the genuine block is still accepted afterwards
 
 
 # --------------------------------------------------------------------------- scenario generator
@@ -485,4 +500,6 @@ def replay(ctx, payload):
         sc = from_json(inp)
         if sc['kind'].startswith('dupkey-set'):
             sc['expect'] = None
+        if sc.get('first_block'):          # a replayed-signatures scenario: first the block the signatures were made for
+            lib_accept(dict(sc, root=sc['first_block'][0], file=sc['first_block'][1]))
         check_one(ctx, sc)
